@@ -886,6 +886,18 @@ func (p *Parser) parsePrimaryExpression() (ast.Expression, error) {
 		}
 
 		// NOT followed by other expression (boolean negation)
+		// A chain of NOTs recurses without passing through parseExpression:
+		// count it against the recursion limit here.
+		p.depth++
+		defer func() { p.depth-- }()
+		if p.depth > MaxRecursionDepth {
+			return nil, goerrors.RecursionDepthLimitError(
+				p.depth,
+				MaxRecursionDepth,
+				p.currentLocation(),
+				"",
+			)
+		}
 		// Parse at comparison level for proper precedence: NOT (a > b), NOT active
 		expr, err := p.parseComparisonExpression()
 		if err != nil {
